@@ -82,12 +82,25 @@ def Convert2Num(text):
     raise ValueError("Expected Number got '{0}'".format(text))
     # return None
 
+def Convert2FloatNum(text):
+    """converts text to python type in order
+       Int, hex, Float, Complex
+       ValueError if can't or if its magnitude does not fit a float
+       (an integer of some hundred digits) as periods and times must
+    """
+    value = Convert2Num(text)
+    try:
+        float(abs(value))
+    except OverflowError:
+        raise ValueError("Number out of range '{0}'".format(text))
+    return value
+
 def Convert2RealNum(text):
     """converts text to python type in order
        Int, hex, Float
        ValueError if can't (a complex number is not accepted)
     """
-    value = Convert2Num(text)
+    value = Convert2FloatNum(text)
     if isinstance(value, complex):
         raise ValueError("Expected real Number got '{0}'".format(text))
     return value
@@ -827,7 +840,7 @@ class Builder(object):
                 index += 1
 
                 if connective == 'at':
-                    period = abs(Convert2Num(tokens[index]))
+                    period = abs(Convert2FloatNum(tokens[index]))
                     index +=1
 
                 elif connective == 'to':
@@ -991,7 +1004,7 @@ class Builder(object):
                 connective = tokens[index]
                 index += 1
                 if connective == 'at':
-                    period = abs(Convert2Num(tokens[index]))
+                    period = abs(Convert2FloatNum(tokens[index]))
                     index +=1
 
                 elif connective == 'to':  #  base directory path for log files
@@ -2052,7 +2065,7 @@ class Builder(object):
         self.verifyCurrentContext(tokens, index)
 
         try:
-            value =  abs(Convert2Num(tokens[index])) #convert text to number if valid format
+            value =  abs(Convert2FloatNum(tokens[index])) #convert text to number if valid format
             index +=1
 
             if isinstance(value, str):
